@@ -92,6 +92,9 @@ type names struct {
 	key   map[string]*fx.Key
 	acct  map[string]string
 	ghost map[string]string
+	// axLike: when set ("A1" / "A2"), the unknown account AX is spelled as that account's full name followed by one more
+	// character (an account of a chain whose name extends this chain's name): still another, unknown account
+	axLike string
 }
 
 func newNames(sd int64) *names {
@@ -113,6 +116,9 @@ func (n *names) of(env map[string]rule, a string) string {
 		return k.Address
 	}
 	if a == "AX" {
+		if n.axLike != "" {
+			return n.acct[n.axLike] + "2"
+		}
 		return n.ghost[a]
 	}
 	if r, ok := env[a]; ok && r.Kind == "N" {
@@ -329,7 +335,9 @@ func evalCmd(args []string) error {
 			line.Srcs = append(line.Srcs, "stub")
 			line.Cols = append(line.Cols, column(n.stubFor(env, listZero), n, env, sl, ms, "canon", st, *par))
 			line.Srcs = append(line.Srcs, "stub_rev")
+			n.axLike = []string{"A1", "A2"}[ei%2]
 			line.Cols = append(line.Cols, column(n.stubFor(env, !listZero), n, env, sl, ms, "rev", st, *par))
+			n.axLike = ""
 			if ch != nil {
 				ok, err := ch.install(env)
 				if err != nil {
